@@ -265,6 +265,9 @@ SEEDS = [
     "c = 1\nd = 0\nx = 1\ny = 2\nwhile true:\n    y = x**2\n    if c == 1:\n        if d == 1:\n            x = x + 1\n        else:\n            d = 1\n        end\n    end\nend\n",
     # characteristic polynomial with radical AND CRootOf roots (numeric_croots mixes floats and radicals)
     "x = 1\ny = 2\nwhile true:\n    x, y = y, x + y\n    x = x + 2 {1/4} x {1/4} x - y\nend\n",
+    # a loop variable assigned more than once in the initial block
+    "x = 1\nx = 7\ny = 0\nwhile true:\n    y = Bernoulli(1/2)\n    x = x*y\nend\n",
+    "c = Bernoulli(1/2)\nx = c\nx = 3*x + 2\ny = 0\nwhile true:\n    y = Bernoulli(1/2)\n    x = x*y + y\nend\n",
     # delayed constant chain (acyclic solver, zero-coefficient chains)
     "x = 0\ny = 0\nwhile true:\n    y = x\n    x = 1\nend\n",
     "x = 0\ny = 0\nz = 0\nwhile true:\n    z = y\n    y = x\n    x = x + 1\nend\n",
